@@ -73,9 +73,12 @@ def cfg_dir():
     for f in ("CMakeLists.txt", "config.h.in", "src/ascon/version.h.in"):
         p = os.path.join(REPO, f)
         key.update(file_hash(p).encode() if os.path.isfile(p) else b"-")
-    d = os.path.join(BUILD, "cfg-" + key.hexdigest()[:12])
-    if os.path.isfile(os.path.join(d, "ok")):
-        return d
+    final = os.path.join(BUILD, "cfg-" + key.hexdigest()[:12])
+    if os.path.isfile(os.path.join(final, "ok")):
+        return final
+    # built in a private directory and renamed into place: checks running at the same time (other processes) never see a half-made one
+    os.makedirs(BUILD, exist_ok=True)
+    d = final + ".tmp-%d-%d" % (os.getpid(), threading.get_ident())
     shutil.rmtree(d, ignore_errors=True)
     os.makedirs(d)
     try:
@@ -85,7 +88,13 @@ def cfg_dir():
     finally:
         shutil.rmtree(os.path.join(d, "cm"), ignore_errors=True)
     open(os.path.join(d, "ok"), "w").write("ok")
-    return d
+    try:
+        os.rename(d, final)
+    except OSError:
+        shutil.rmtree(d, ignore_errors=True)      # another process got there first: use its copy
+        if not os.path.isfile(os.path.join(final, "ok")):
+            raise
+    return final
 
 
 def lib_sources(omit=()):
@@ -181,9 +190,10 @@ def config_dir(cfg, triple, drop=()):
         t, n = re.subn(r"(?m)^#define %s\b.*$" % re.escape(x), "/* #undef %s */" % x, t)
         if not n:
             raise BuildError("config.h has no definition of %s to drop" % x)
-    open(os.path.join(d, "config.h"), "w").write(t)
-    shutil.copy(os.path.join(cfg, "version.h"), os.path.join(d, "version.h"))
-    open(os.path.join(d, "ok"), "w").write("ok")
+    for name, text in (("config.h", t), ("version.h", open(os.path.join(cfg, "version.h")).read()), ("ok", "ok")):
+        tmp = os.path.join(d, ".%s.%d.%d" % (name, os.getpid(), threading.get_ident()))     # written aside and renamed: a concurrent check never reads a half-written header
+        open(tmp, "w").write(text)
+        os.rename(tmp, os.path.join(d, name))
     return d
 
 
@@ -343,8 +353,8 @@ def gc(max_gb=6.0):
     total = 0
     for e in os.listdir(BUILD):
         p = os.path.join(BUILD, e)
-        if not os.path.isdir(p) or e in ("run",):
-            continue
+        if not os.path.isdir(p) or e in ("run",) or e.startswith("cfg-") or e.startswith("inc-"):
+            continue        # (the configure results are tiny and every check uses them)
         sz = 0
         for root, _, fs in os.walk(p):
             for f in fs:
